@@ -28,6 +28,9 @@ CONSTANTS
     DevRemark,    \* pinned code (F12, fixed): every later reap re-marks a lost job (time restarts, status 0)
     TolLateReadySlot, \* known finding F15 (see SlotsConserved)
     TolLateAckStatus, \* known finding F13: loss attributed in a later reap than the owner's own reports status 0
+    FineScan,     \* BOOLEAN: a time-limit scan is ScanBegin + one ScanVisit per job of its snapshot,
+                  \* other parent activity (result messages, supervision, submissions) may come between
+    DevSoftNoReady, \* pinned code (F10, fixed): on_soft_timeout does not re-check that the job is unresolved
     DevShrinkSame, \* pinned code (F14, fixed): shrink() may pick a worker that is already being shrunk
     DevNoCreditLate \* pinned code: a READY for a job no longer cached is not credited to the worker
 
@@ -54,14 +57,15 @@ VARIABLES
     sigs,        \* signals sent by the parent, in order: <<pid, name>>
     now,
     ndup,
+    scanning, snap, \* FineScan: a scan is in progress; jobs of its snapshot still to be visited
     supd, scand, \* bookkeeping for Periodic
     raised,      \* Maintain raised RestartFreqExceeded
     act
 
 vars == <<pstate, nsub, job, pool, procs, nextpid, sem, rs, dirty, inq, outq, w,
-          sigs, now, ndup, supd, scand, raised, act>>
+          sigs, now, ndup, supd, scand, raised, scanning, snap, act>>
 View == <<pstate, nsub, job, pool, procs, nextpid, sem, rs, dirty, inq, outq, w,
-          sigs, now, ndup, supd, scand, raised>>
+          sigs, now, ndup, supd, scand, raised, scanning, snap>>
 
 Jobs == 1..NJobs
 Pids == 1..MaxPid
@@ -89,7 +93,7 @@ Init ==
     /\ inq = <<>> /\ outq = <<>>
     /\ w = [p \in Pids |-> IF p <= Procs THEN [NoWorker EXCEPT !.pc = "idle"] ELSE NoWorker]
     /\ sigs = <<>> /\ now = 0 /\ ndup = 0 /\ supd = FALSE /\ scand = FALSE
-    /\ raised = FALSE
+    /\ raised = FALSE /\ scanning = FALSE /\ snap = <<>>
     /\ act = [name |-> "Init"]
 
 (* ------------------------------------------------------------------------- *)
@@ -123,20 +127,20 @@ Submit(lim) ==
                                                    !.incache = TRUE]]
           /\ inq' = Append(inq, j)
           /\ act' = [name |-> "Submit", j |-> j, soft |-> lim[1], hard |-> lim[2]]
-    /\ UNCHANGED <<pstate, pool, procs, nextpid, rs, dirty, outq, w, sigs, now, ndup, supd, scand, raised>>
+    /\ UNCHANGED <<pstate, pool, procs, nextpid, rs, dirty, outq, w, sigs, now, ndup, supd, scand, raised, scanning, snap>>
 
 SubmitRefused ==   \* apply_async on a closed pool returns None and touches nothing
     /\ pstate # "RUN" /\ nsub < NJobs
     /\ act' = [name |-> "SubmitRefused"]
     /\ UNCHANGED <<pstate, nsub, job, pool, procs, nextpid, sem, rs, dirty, inq, outq, w,
-                   sigs, now, ndup, supd, scand, raised>>
+                   sigs, now, ndup, supd, scand, raised, scanning, snap>>
 
 Discard(j) ==
     /\ "Discard" \in UserCalls /\ j <= nsub /\ job[j].incache
     /\ job' = [job EXCEPT ![j].incache = FALSE]
     /\ act' = [name |-> "Discard", j |-> j]
     /\ UNCHANGED <<pstate, nsub, pool, procs, nextpid, sem, rs, dirty, inq, outq, w, sigs,
-                   now, ndup, supd, scand, raised>>
+                   now, ndup, supd, scand, raised, scanning, snap>>
 
 TerminateJob(p) ==   \* Pool.terminate_job(pid): TERM + mark the process
     /\ "TerminateJob" \in UserCalls
@@ -148,7 +152,7 @@ TerminateJob(p) ==   \* Pool.terminate_job(pid): TERM + mark the process
     /\ w' = [w EXCEPT ![p].term = TRUE]
     /\ act' = [name |-> "TerminateJob", pid |-> p]
     /\ UNCHANGED <<pstate, nsub, job, procs, nextpid, sem, rs, dirty, inq, outq, now, ndup,
-                   supd, scand, raised>>
+                   supd, scand, raised, scanning, snap>>
 
 Close ==
     /\ "Close" \in UserCalls /\ pstate = "RUN"
@@ -156,7 +160,7 @@ Close ==
     /\ sem' = <<IF sem[1] < sem[2] THEN sem[2] ELSE sem[1], sem[2]>>     \* putlock.clear()
     /\ act' = [name |-> "Close"]
     /\ UNCHANGED <<nsub, job, pool, procs, nextpid, rs, dirty, inq, outq, w, sigs, now, ndup,
-                   supd, scand, raised>>
+                   supd, scand, raised, scanning, snap>>
 
 Grow ==
     /\ "Grow" \in UserCalls /\ procs < Procs + 1 /\ nextpid <= MaxPid
@@ -164,7 +168,7 @@ Grow ==
     /\ sem' = <<sem[1] + 1, sem[2] + 1>>
     /\ act' = [name |-> "Grow"]
     /\ UNCHANGED <<pstate, nsub, job, pool, nextpid, rs, dirty, inq, outq, w, sigs, now, ndup,
-                   supd, scand, raised>>
+                   supd, scand, raised, scanning, snap>>
 
 (* shrink(1): first worker (list order) whose pid owns no cached job; needs a free  *)
 (* slot or the call blocks (not modelled: enabled only when it would not block)     *)
@@ -181,7 +185,7 @@ Shrink ==
                           ELSE /\ sigs' = Append(sigs, <<p, "TERM">>)
                                /\ w' = [w EXCEPT ![p].term = TRUE]
     /\ act' = [name |-> "Shrink"]
-    /\ UNCHANGED <<pstate, nsub, job, nextpid, rs, dirty, inq, outq, now, ndup, supd, scand, raised>>
+    /\ UNCHANGED <<pstate, nsub, job, nextpid, rs, dirty, inq, outq, now, ndup, supd, scand, raised, scanning, snap>>
 
 (* ------------------------------------------------------------------------- *)
 (* environment: workers                                                      *)
@@ -194,7 +198,7 @@ W_Accept(p) ==    \* take the next task from the pipe and announce acceptance
         /\ outq' = Append(outq, [t |-> "ACK", j |-> j, pid |-> p, time |-> now])
         /\ act' = [name |-> "W_Accept", pid |-> p, j |-> j]
     /\ UNCHANGED <<pstate, nsub, job, pool, procs, nextpid, sem, rs, dirty, sigs, now, ndup,
-                   supd, scand, raised>>
+                   supd, scand, raised, scanning, snap>>
 
 W_Finish(p, res) ==  \* the task returns / raises: one READY; then next job or quota wait
     /\ w[p].pc = "run" /\ ~Exited(p)
@@ -204,7 +208,7 @@ W_Finish(p, res) ==  \* the task returns / raises: one READY; then next job or q
         /\ outq' = Append(outq, [t |-> "READY", j |-> w[p].j, pid |-> p, res |-> res])
     /\ act' = [name |-> "W_Finish", pid |-> p, res |-> res]
     /\ UNCHANGED <<pstate, nsub, job, pool, procs, nextpid, sem, rs, dirty, inq, sigs, now, ndup,
-                   supd, scand, raised>>
+                   supd, scand, raised, scanning, snap>>
 
 Counter(p) == IF p \in PoolPids(pool) THEN pool[IdxOf(pool, p)].cnt ELSE 0
 
@@ -214,7 +218,7 @@ W_QuotaExit(p) ==  \* all results consumed by the parent: exit with the recycle 
     /\ w' = [w EXCEPT ![p].pc = "exited", ![p].ex = Some(EX_RECYCLE)]
     /\ act' = [name |-> "W_QuotaExit", pid |-> p]
     /\ UNCHANGED <<pstate, nsub, job, pool, procs, nextpid, sem, rs, dirty, inq, outq, sigs, now,
-                   ndup, supd, scand, raised>>
+                   ndup, supd, scand, raised, scanning, snap>>
 
 W_Die(p, st) ==    \* dies while running task code or between jobs
     /\ w[p].pc \in {"run", "idle", "quota"} /\ ~Exited(p)
@@ -222,14 +226,14 @@ W_Die(p, st) ==    \* dies while running task code or between jobs
     /\ w' = [w EXCEPT ![p].pc = "exited", ![p].ex = Some(st)]
     /\ act' = [name |-> "W_Die", pid |-> p, st |-> st]
     /\ UNCHANGED <<pstate, nsub, job, pool, procs, nextpid, sem, rs, dirty, inq, outq, sigs, now,
-                   ndup, supd, scand, raised>>
+                   ndup, supd, scand, raised, scanning, snap>>
 
 W_TermExit(p) ==   \* honours a termination request
     /\ w[p].term /\ ~Exited(p) /\ w[p].pc # "none"
     /\ w' = [w EXCEPT ![p].pc = "exited", ![p].ex = Some(-15)]
     /\ act' = [name |-> "W_TermExit", pid |-> p]
     /\ UNCHANGED <<pstate, nsub, job, pool, procs, nextpid, sem, rs, dirty, inq, outq, sigs, now,
-                   ndup, supd, scand, raised>>
+                   ndup, supd, scand, raised, scanning, snap>>
 
 DupReady ==        \* a duplicate of a result message that was already delivered once
     /\ ndup < MaxDup
@@ -239,7 +243,7 @@ DupReady ==        \* a duplicate of a result message that was already delivered
          /\ act' = [name |-> "DupReady", j |-> j, res |-> res]
     /\ ndup' = ndup + 1
     /\ UNCHANGED <<pstate, nsub, job, pool, procs, nextpid, sem, rs, dirty, inq, w, sigs, now,
-                   supd, scand, raised>>
+                   supd, scand, raised, scanning, snap>>
 
 (* ------------------------------------------------------------------------- *)
 (* result handler: consume exactly one message                                *)
@@ -258,7 +262,7 @@ RH_Ack ==
                ELSE UNCHANGED job
           /\ act' = [name |-> "RH_Ack", j |-> j, pid |-> m.pid]
     /\ UNCHANGED <<pstate, nsub, pool, procs, nextpid, sem, dirty, inq, w, sigs, now, ndup,
-                   supd, scand, raised>>
+                   supd, scand, raised, scanning, snap>>
 
 Credit(pl, p) == IF p # 0 /\ p \in PoolPids(pl)
                    THEN [pl EXCEPT ![IdxOf(pl, p)].cnt = pl[IdxOf(pl, p)].cnt + 1]
@@ -278,7 +282,7 @@ RH_Ready ==
                     /\ job' = [job EXCEPT ![j].late = job[j].late \/ ~job[j].rel]
                     /\ UNCHANGED sem
           /\ act' = [name |-> "RH_Ready", j |-> j, pid |-> m.pid, res |-> m.res]
-    /\ UNCHANGED <<pstate, nsub, procs, nextpid, rs, dirty, inq, w, sigs, now, ndup, supd, scand, raised>>
+    /\ UNCHANGED <<pstate, nsub, procs, nextpid, rs, dirty, inq, w, sigs, now, ndup, supd, scand, raised, scanning, snap>>
 
 (* ------------------------------------------------------------------------- *)
 (* supervision: Pool.maintain_pool()                                         *)
@@ -368,7 +372,7 @@ Maintain ==
                     /\ sem' = RelN(sem, Len(codes))
           /\ act' = [name |-> "Maintain", raised |-> st[4]]
     /\ supd' = TRUE
-    /\ UNCHANGED <<nsub, procs, dirty, inq, outq, sigs, now, ndup, scand>>
+    /\ UNCHANGED <<nsub, procs, dirty, inq, outq, sigs, now, ndup, scand, scanning, snap>>
 
 (* ------------------------------------------------------------------------- *)
 (* time-limit scan: one pass of TimeoutHandler.handle_timeouts                *)
@@ -395,6 +399,7 @@ ScanSigs(j, lingers, acc) ==   \* signals in cache (= submission) order
     ELSE ScanSigs(j + 1, lingers, acc)
 
 Scan(lingers) ==
+    /\ ~FineScan
     /\ lingers \subseteq Victims
     /\ LET d0 == {j \in dirty : job[j].incache} IN
         /\ job' = [j \in Jobs |->
@@ -412,16 +417,60 @@ Scan(lingers) ==
                      ELSE w[p]]
         /\ act' = [name |-> "Scan", lingers |-> lingers]
     /\ scand' = TRUE
+    /\ UNCHANGED <<pstate, nsub, pool, procs, nextpid, sem, rs, inq, outq, now, ndup, supd, raised, scanning, snap>>
+
+
+(* ---- the same scan, one visit at a time (FineScan) ----------------------------------- *)
+RECURSIVE SeqOfJobs(_, _)
+SeqOfJobs(S, j) == IF j > NJobs THEN <<>>
+                   ELSE (IF j \in S THEN <<j>> ELSE <<>>) \o SeqOfJobs(S, j + 1)
+
+ScanBegin ==      \* copy of the cache taken; memory of soft signals pruned to it
+    /\ FineScan /\ ~scanning
+    /\ snap' = SeqOfJobs(Cached, 1) /\ scanning' = (Cached # {})
+    /\ dirty' = {j \in dirty : job[j].incache}
+    /\ scand' = ((Cached = {}) \/ scand)
+    /\ act' = [name |-> "ScanBegin"]
+    /\ UNCHANGED <<pstate, nsub, job, pool, procs, nextpid, sem, rs, inq, outq, w, sigs, now, ndup,
+                   supd, raised>>
+
+ScanVisit(linger) ==   \* the next job of the snapshot, judged by what it looks like *now*
+    /\ FineScan /\ scanning /\ snap # <<>>
+    /\ LET j == Head(snap)
+           o == job[j].owner
+           inpool == o \in PoolPids(pool)
+           alive == inpool /\ ~Exited(o)
+           hardDue == TimedOut(job[j].tacc, EffHard(j))
+           softDue == ~hardDue /\ j \notin dirty /\ TimedOut(job[j].tacc, EffSoft(j))
+           hardHit == hardDue /\ ~job[j].ready
+           softHit == softDue /\ inpool /\ (DevSoftNoReady \/ ~job[j].ready)
+       IN /\ (linger => (hardHit /\ alive))
+          /\ job' = [job EXCEPT ![j] =
+                        IF hardHit THEN [SetJob(job[j], "timelimit", EffHard(j)) EXCEPT !.thard = job[j].thard + 1]
+                        ELSE IF softHit THEN [job[j] EXCEPT !.tsoft = job[j].tsoft + 1]
+                        ELSE job[j]]
+          /\ dirty' = IF softDue THEN dirty \cup {j} ELSE dirty
+          /\ sigs' = IF hardHit /\ alive
+                        THEN (IF linger THEN sigs \o <<<<o, "TERM">>, <<o, "KILL">>>> ELSE Append(sigs, <<o, "TERM">>))
+                      ELSE IF softHit /\ alive THEN Append(sigs, <<o, "USR1">>)
+                      ELSE sigs
+          /\ w' = IF hardHit /\ alive
+                     THEN [w EXCEPT ![o] = [w[o] EXCEPT !.pc = "exited", !.term = TRUE,
+                                                       !.ex = Some(IF linger THEN -9 ELSE -15)]]
+                     ELSE w
+          /\ snap' = Tail(snap) /\ scanning' = (Tail(snap) # <<>>)
+          /\ scand' = ((Tail(snap) = <<>>) \/ scand)
+          /\ act' = [name |-> "ScanVisit", j |-> j, linger |-> linger]
     /\ UNCHANGED <<pstate, nsub, pool, procs, nextpid, sem, rs, inq, outq, now, ndup, supd, raised>>
 
 Tick ==
     /\ now < MaxTime
-    /\ Periodic => (supd \/ pstate # "RUN" \/ raised) /\ scand /\ outq = <<>>
+    /\ Periodic => (supd \/ pstate # "RUN" \/ raised) /\ scand /\ ~scanning /\ outq = <<>>
     /\ now' = now + 1
     /\ supd' = FALSE /\ scand' = FALSE
     /\ act' = [name |-> "Tick"]
     /\ UNCHANGED <<pstate, nsub, job, pool, procs, nextpid, sem, rs, dirty, inq, outq, w, sigs,
-                   ndup, raised>>
+                   ndup, raised, scanning, snap>>
 
 Next ==
     \/ \E lim \in JobLimits : Submit(lim)
@@ -436,6 +485,7 @@ Next ==
     \/ RH_Ack \/ RH_Ready
     \/ Maintain
     \/ \E L \in SUBSET Victims : Scan(L)
+    \/ ScanBegin \/ (\E lg \in BOOLEAN : ScanVisit(lg))
     \/ Tick
 
 Spec == Init /\ [][Next]_vars
@@ -458,7 +508,7 @@ OwnOutcome == [][\A j \in Jobs : (~job[j].ready /\ job'[j].ready) =>
     \/ /\ job'[j].out = "lost" /\ act'.name = "Maintain"
        /\ job[j].owner # 0 /\ w[job[j].owner].ex # None
        /\ job[j].lost # None /\ job'[j].oarg = job[j].lost[2]
-    \/ /\ job'[j].out = "timelimit" /\ act'.name = "Scan"
+    \/ /\ job'[j].out = "timelimit" /\ act'.name \in {"Scan", "ScanVisit"}
        /\ job[j].hard # 0 /\ job[j].tacc # None /\ now >= Val(job[j].tacc) + job[j].hard
        /\ job'[j].oarg = job[j].hard
     \/ /\ job'[j].out = "terminated" /\ act'.name = "Maintain"
@@ -541,6 +591,15 @@ Quiet == /\ outq = <<>> /\ inq = <<>>
 (* known finding F15 (TolLateReadySlot): the slot of a job whose result message arrives  *)
 (* after the job left the cache (time limit, loss, discard) is given back by nobody      *)
 Leaked == Cardinality({j \in 1..nsub : job[j].late /\ ~job[j].rel})
+(* bounded liveness: when the environment is quiet (nothing in the pipes, every worker idle *)
+(* or reaped) every accepted job is resolved, or is within its lost-worker grace period     *)
+QuietEnv == /\ outq = <<>> /\ inq = <<>>
+            /\ \A p \in Pids : w[p].pc \in {"none", "idle", "exited"}
+            /\ \A i \in 1..Len(pool) : ~Exited(pool[i].pid)
+QuietResolved == (QuietEnv /\ pstate = "RUN" /\ ~raised) =>
+    \A j \in 1..nsub : \/ job[j].ready \/ ~job[j].incache
+                        \/ (job[j].lost # None /\ now - job[j].lost[1] <= Grace)
+                        \/ (TolLateAckStatus /\ job[j].owner # 0 /\ job[j].owner \notin PoolPids(pool))
 SlotsConserved == (PutLocks /\ Quiet /\ pstate = "RUN") =>
                       (sem[1] + (IF TolLateReadySlot THEN Leaked ELSE 0) >= sem[2])
 InFlightBound == (PutLocks /\ pstate = "RUN" /\ \A p \in Pids : w[p].ex = None) =>
@@ -556,7 +615,7 @@ AckResetsBudget == [][act'.name = "RH_Ack" => rs'.R = 0]_vars
 
 (* ========================================================================= *)
 (* binding                                                                    *)
-Proj == [pstate |-> pstate, nsub |-> nsub, job |-> [j \in 1..nsub |-> job[j]],
+Proj == [scanning |-> scanning, snap |-> snap, pstate |-> pstate, nsub |-> nsub, job |-> [j \in 1..nsub |-> job[j]],
          pool |-> pool, procs |-> procs, sem |-> sem, rs |-> rs,
          dirty |-> dirty, inq |-> inq, outq |-> outq,
          w |-> [p \in 1..(nextpid - 1) |-> w[p]],
